@@ -387,9 +387,9 @@ void World::after_step(const StepEffect& e)
                    "two consecutive observations differ: " + first_diff_line(a, b));
         probes.hit("purity_checked");
     }
-    if (check(CK_MODEL) && !(e.out.threw && faulted))
+    if (check(CK_MODEL) && !(e.out.threw && faulted) && !e.raw)
         check_model(cur);
-    if (have_prev && (check(CK_DIFF) || faulted))
+    if (have_prev && (check(CK_DIFF) || faulted) && !(e.raw && !e.expect_unchanged))
     {
         if (e.expect_unchanged)
         {
@@ -447,7 +447,7 @@ void World::after_step(const StepEffect& e)
         }
     }
     // C06: getter and snapshot field agree
-    if (check(CK_DIFF) && !faulted)
+    if (check(CK_DIFF) && !faulted && !e.raw)
     {
         for (auto& kv : cur.track)
         {
@@ -464,6 +464,8 @@ void World::after_step(const StepEffect& e)
     }
     for (auto id : model.tracks)
     {
+        if (e.raw)
+            break;
         auto it = cur.track.find(id);
         if (it != cur.track.end() && !it->second.have_snapshot && !stop)
         {
